@@ -73,12 +73,12 @@ func (d *DebugDialer) Dial(ctx context.Context, urlstr string) (conn net.Conn, b
 		// We must split response inside buffered bytes from other received
 		// bytes from server.
 		p := resBuf.Bytes()
-		n := bytes.Index(p, headEnd)
-		h := len(p) // Head end index; all received bytes if the head is incomplete.
-		if n >= 0 {
-			h = n + len(headEnd)
+		h := indexHeadEnd(p) // Head end index.
+		if h < 0 {
+			// All received bytes if the head is incomplete.
+			h = len(p)
 		}
-		n = h + int(resContentLength) // Body end index.
+		n := h + int(resContentLength) // Body end index.
 		if n > len(p) {
 			// Response was cut before the whole body has been received.
 			n = len(p)
@@ -131,7 +131,23 @@ func (rwc rwConn) Write(p []byte) (int, error) {
 	return rwc.w.Write(p)
 }
 
-var headEnd = []byte("\r\n\r\n")
+// indexHeadEnd returns the index of the first byte after the empty line that
+// ends the HTTP head in p, or -1 if there is no such line. As the Dialer (and
+// net/http) does, it takes both CRLF and bare LF as the end of a line.
+func indexHeadEnd(p []byte) int {
+	for i := 0; i < len(p); {
+		j := bytes.IndexByte(p[i:], '\n')
+		if j < 0 {
+			break
+		}
+		line := p[i : i+j]
+		i += j + 1
+		if len(line) == 0 || (len(line) == 1 && line[0] == '\r') {
+			return i
+		}
+	}
+	return -1
+}
 
 type prefetchResponseReader struct {
 	source io.Reader // Original connection source.
